@@ -165,7 +165,8 @@ pub enum NbPhyEvent {
 pub struct RadioInner {
     pub log: Vec<RadioOp>,
     /// when true the next radio call fails (deviation from the default answer)
-    pub fail_next: bool,
+    /// the radio call that fails, counted from the next one (0 = the next call)
+    pub fail_in: Option<usize>,
     /// TxRequest answers TxDone(ms) directly instead of Txing
     pub sync_tx: bool,
     pub tx_done_ms: u32,
@@ -195,7 +196,17 @@ impl<const PW: u8, const GAIN: i8> PhyRxTx for NbRadio<PW, GAIN> {
 
     fn handle_event(&mut self, event: REvent<'_, Self>) -> Result<RResponse<Self>, Self::PhyError> {
         let mut g = self.inner.borrow_mut();
-        let fail = std::mem::replace(&mut g.fail_next, false);
+        let fail = match g.fail_in {
+            Some(0) => {
+                g.fail_in = None;
+                true
+            }
+            Some(n) => {
+                g.fail_in = Some(n - 1);
+                false
+            }
+            None => false,
+        };
         match event {
             REvent::TxRequest(cfg, buf) => {
                 let op = RadioOp::Tx { pw: cfg.pw, rf: rf_of(&cfg.rf), bytes: buf.to_vec(), failed: fail };
@@ -558,6 +569,8 @@ pub enum Ev {
     Rng(Vec<u32>),
     /// same event, but the radio call it performs fails
     Fault(Box<Ev>),
+    /// same event, but its (n+1)-th radio call fails
+    FaultAt(Box<Ev>, usize),
     /// whole uplink transaction: send, TX done, RX1 [frame], RX2 [frame], close
     Cycle { confirmed: bool, port: u8, len: usize, rx1: Option<Frame>, rx2: Option<Frame> },
     /// whole join transaction
@@ -569,6 +582,9 @@ pub enum Ev {
     /// as CycleF, but the radio stays down for `burst` consecutive radio calls: the retried step fails again
     /// `burst - 1` times before it succeeds
     CycleFB { confirmed: bool, port: u8, len: usize, rx1: Option<Frame>, rx2: Option<Frame>, fault_at: usize, burst: usize },
+    /// as CycleF, but the second radio call of micro step `fault_at` fails (a step that cancels a reception and then
+    /// starts the next one makes two)
+    CycleF2 { confirmed: bool, port: u8, len: usize, rx1: Option<Frame>, rx2: Option<Frame>, fault_at: usize },
     /// snapshot the session through serde and restore it into the same device (C20)
     Persist,
     /// the application configures another credential set for its next join (the network knows the device by it)
@@ -661,6 +677,8 @@ pub struct NbCore<const PW: u8, const GAIN: i8, const D: usize = 4> {
     pub cfg: DevCfg,
     pub dead: Option<String>,
     pub tx_done_ms: u32,
+    /// which radio call of the faulty micro step fails (0 = the first)
+    pub fault_call: usize,
 }
 
 pub fn dr_of(v: u8) -> region::DR {
@@ -735,7 +753,7 @@ impl<const PW: u8, const GAIN: i8, const D: usize> NbCore<PW, GAIN, D> {
     pub fn new(cfg: &DevCfg) -> Self {
         let radio = Rc::new(RefCell::new(RadioInner {
             log: vec![],
-            fail_next: false,
+            fail_in: None,
             sync_tx: cfg.sync_tx,
             tx_done_ms: cfg.clock_start.unwrap_or(1000),
             offset_ms: cfg.offset_ms,
@@ -767,7 +785,7 @@ impl<const PW: u8, const GAIN: i8, const D: usize> NbCore<PW, GAIN, D> {
         if let Some(a) = cfg.adr {
             dev.set_adr(a);
         }
-        NbCore { dev, radio, rng, net, cfg: cfg.clone(), dead: None, tx_done_ms: cfg.clock_start.unwrap_or(1000) }
+        NbCore { dev, radio, rng, net, cfg: cfg.clone(), dead: None, tx_done_ms: cfg.clock_start.unwrap_or(1000), fault_call: 0 }
     }
 
     pub fn snap(&self) -> VerifMac {
@@ -793,9 +811,9 @@ impl<const PW: u8, const GAIN: i8, const D: usize> NbCore<PW, GAIN, D> {
         }
     }
 
-    fn raw(&mut self, ev: &Ev, fault: bool) -> (Resp, Option<Judge>, Option<Vec<u8>>) {
+    fn raw(&mut self, ev: &Ev, fault: Option<usize>) -> (Resp, Option<Judge>, Option<Vec<u8>>) {
         self.rng.begin_call();
-        self.radio.borrow_mut().fail_next = fault;
+        self.radio.borrow_mut().fail_in = fault;
         let mut judge = None;
         let mut bytes = None;
         let dev = &mut self.dev;
@@ -831,7 +849,7 @@ impl<const PW: u8, const GAIN: i8, const D: usize> NbCore<PW, GAIN, D> {
                     _ => 0,
                 };
                 let in_window = matches!(dev.verif_state(), VerifNbState::WaitingForRx { .. });
-                let j = if in_window && !fault { self.net.judge(&b, max) } else { Judge::Reject("no-window-open") };
+                let j = if in_window && fault.is_none() { self.net.judge(&b, max) } else { Judge::Reject("no-window-open") };
                 let bb = b.clone();
                 let r = catch(|| resp_of(dev.handle_event(Event::RadioEvent(REvent::Phy(NbPhyEvent::RxDone(bb, 7))))));
                 self.net.commit(&b, &j);
@@ -866,11 +884,11 @@ impl<const PW: u8, const GAIN: i8, const D: usize> NbCore<PW, GAIN, D> {
                 });
                 r
             }
-            Ev::Fault(_) | Ev::Cycle { .. } | Ev::JoinCycle { .. } | Ev::CycleF { .. } | Ev::CycleFB { .. } | Ev::JoinCycleF { .. } => {
+            Ev::Fault(_) | Ev::FaultAt(..) | Ev::Cycle { .. } | Ev::JoinCycle { .. } | Ev::CycleF { .. } | Ev::CycleFB { .. } | Ev::CycleF2 { .. } | Ev::JoinCycleF { .. } => {
                 unreachable!("handled by apply")
             }
         };
-        self.radio.borrow_mut().fail_next = false;
+        self.radio.borrow_mut().fail_in = None;
         let resp = match r {
             Ok(r) => r,
             Err(p) => {
@@ -895,8 +913,9 @@ impl<const PW: u8, const GAIN: i8, const D: usize> NbCore<PW, GAIN, D> {
         let st_before = self.st();
         let n0 = self.radio.borrow().log.len();
         let (inner, fault) = match ev {
-            Ev::Fault(e) => (&**e, true),
-            e => (e, false),
+            Ev::Fault(e) => (&**e, Some(0)),
+            Ev::FaultAt(e, n) => (&**e, Some(*n)),
+            e => (e, None),
         };
         let (resp, judge, bytes) = self.raw(inner, fault);
         let ops = self.radio.borrow().log[n0..].to_vec();
@@ -947,6 +966,12 @@ impl<const PW: u8, const GAIN: i8, const D: usize> NbCore<PW, GAIN, D> {
             Ev::CycleFB { confirmed, port, len, rx1, rx2, fault_at, burst } => {
                 self.cycle(Ev::Send { confirmed: *confirmed, port: *port, len: *len }, rx1.clone(), rx2.clone(), Some(*fault_at), *burst)
             }
+            Ev::CycleF2 { confirmed, port, len, rx1, rx2, fault_at } => {
+                self.fault_call = 1;
+                let r = self.cycle(Ev::Send { confirmed: *confirmed, port: *port, len: *len }, rx1.clone(), rx2.clone(), Some(*fault_at), 1);
+                self.fault_call = 0;
+                r
+            }
             Ev::JoinCycleF { rx1, rx2, fault_at } => self.cycle(Ev::Join, rx1.clone(), rx2.clone(), Some(*fault_at), 1),
             e => vec![self.micro(e)],
         }
@@ -959,7 +984,11 @@ impl<const PW: u8, const GAIN: i8, const D: usize> NbCore<PW, GAIN, D> {
             let faulty = fault_at == Some(idx);
             idx += 1;
             let is_start = matches!(e, Ev::Send { .. } | Ev::Join);
-            let mut m = if faulty { s.micro(&Ev::Fault(Box::new(e.clone()))) } else { s.micro(&e) };
+            let mut m = if faulty {
+                if s.fault_call == 0 { s.micro(&Ev::Fault(Box::new(e.clone()))) } else { s.micro(&Ev::FaultAt(Box::new(e.clone()), s.fault_call)) }
+            } else {
+                s.micro(&e)
+            };
             if faulty && matches!(m.resp, Resp::ErrRadio) && !is_start && s.dead.is_none() {
                 // the application retries the step whose radio call failed (and fails again while the radio stays down)
                 out.push(m);
@@ -983,13 +1012,17 @@ impl<const PW: u8, const GAIN: i8, const D: usize> NbCore<PW, GAIN, D> {
         if matches!(self.st(), VerifNbState::SendingData { .. }) && !push(self, Ev::TxDone, &mut out) {
             return out;
         }
-        for (_w, frame) in [(1, rx1), (2, rx2)] {
-            if !matches!(self.st(), VerifNbState::WaitingForRxWindow { .. }) {
-                return out;
-            }
-            // window opens
-            if !push(self, Ev::Timeout, &mut out) {
-                return out;
+        for (w, frame) in [(1u8, rx1), (2u8, rx2)] {
+            match self.st() {
+                // window opens
+                VerifNbState::WaitingForRxWindow { .. } => {
+                    if !push(self, Ev::Timeout, &mut out) {
+                        return out;
+                    }
+                }
+                // (a stack that keeps RX1 open until RX2 is due may open RX2 in the step that closes RX1)
+                VerifNbState::WaitingForRx { window, .. } if window == w && w == 2 => {}
+                _ => return out,
             }
             if let Some(f) = frame {
                 if !push(self, Ev::Rx(f), &mut out) {
